@@ -33,6 +33,8 @@ def validate(v, trace, name):
             e = evs[rej[0] - 1]
             if e["ev"] == "Cfg":
                 sig = {"kind": rej[1], "op": e["op"]}
+            elif e["ev"] == "Effective":
+                sig = {"kind": rej[1], "entry": e["entry"], "missing": min(e["missing"], 6), "unknown_names": e["unknown"] > 0}
             elif e["ev"] == "Switch":
                 sig = {"kind": rej[1], "entry": e["entry"], "rule": e["rule"], "value": e["value"]}
             else:
